@@ -5,7 +5,10 @@
  *   F <i> enc= end= off= prot= ns= px= sx= parent= dir==<subdir of the fragment>
  *   E =<name> frag= kind=I|R|B|A hid= x=<raw file|input code|alias target> res=<ultimate target|~|->
  *   REF <reference field or ->
+ *   G =<name> n= v=       one sample of a RAW field read with gd_getdata64 at frame 12
  *   X <text>              public API disagrees with the internal value
+ *   N <text>              note (API mode: which call failed)
+ * A line "@<script>" selects API mode (see run_api).
  *   END
  *
  * Per-fragment values come from the public API (gd_endianness,
@@ -28,15 +31,10 @@ static const char *rel(const char *root, const char *path)
   return path;
 }
 
-static void run(const char *dir)
+static void show(DIRFILE *D, const char *root)
 {
-  char root[4096];
   unsigned u;
   int i, n;
-  DIRFILE *D;
-  if (realpath(dir, root) == NULL) { printf("IMPL ERR\nEND\n"); return; }
-  D = gd_open(dir, GD_RDONLY);
-  if (gd_error(D)) { printf("IMPL ERR\nEND\n"); gd_discard(D); return; }
   printf("IMPL OK\n");
   n = gd_nfragments(D);
   for (i = 0; i < n; i++) {
@@ -161,7 +159,70 @@ static void run(const char *dir)
     }
   }
   printf("END\n");
+}
+
+static void run(const char *dir)
+{
+  char root[4096];
+  DIRFILE *D;
+  if (realpath(dir, root) == NULL) { printf("IMPL ERR\nEND\n"); return; }
+  D = gd_open(dir, GD_RDONLY);
+  if (gd_error(D)) { printf("IMPL ERR\nEND\n"); gd_discard(D); return; }
+  show(D, root);
   gd_discard(D);
+}
+
+/* API mode: the root fragment is built by API calls, sub-fragments (already on disk) come in
+ * through gd_include_affix / gd_include_ns with the parent's current encoding and byte order as
+ * flags (what /INCLUDE does) and GD_PEDANTIC (gd_add_spec & co. parse strictly at D->standards);
+ * gd_alter_affixes / gd_fragment_namespace then change an inclusion.  The first failing call
+ * ends the script with IMPL ERR (the parser would have rejected the equivalent format file). */
+static void run_api(const char *script)
+{
+  FILE *fp = fopen(script, "r");
+  char line[8192], root[4096] = "";
+  DIRFILE *D = NULL;
+  int failed = 0;
+  if (!fp) { printf("IMPL ERR\nN no script\nEND\n"); return; }
+  while (!failed && fgets(line, sizeof line, fp)) {
+    char *f[6] = {0};
+    int nf = 0, r = 0;
+    char *q = line;
+    size_t l = strlen(line);
+    while (l && (line[l - 1] == '\n')) line[--l] = 0;
+    if (!l) continue;
+    while (nf < 6 && q) { f[nf++] = q; q = strchr(q, '\t'); if (q) *q++ = 0; }
+#define ARG(k) ((f[k] && strcmp(f[k], "-")) ? f[k] : NULL)
+    if (!strcmp(f[0], "NEW")) {
+      D = gd_open(f[1], GD_RDWR | GD_CREAT | GD_EXCL);
+      r = gd_error(D);
+      if (!r && realpath(f[1], root) == NULL) r = -999;
+    } else if (D == NULL) r = -998;
+    else if (!strcmp(f[0], "SPEC")) r = gd_add_spec(D, f[2], atoi(f[1]));
+    else if (!strcmp(f[0], "ALIAS")) r = gd_add_alias(D, f[1], f[2], atoi(f[3]));
+    else if (!strcmp(f[0], "MALIAS")) r = gd_madd_alias(D, f[1], f[2], f[3]);
+    else if (!strcmp(f[0], "HIDE")) r = gd_hide(D, f[1]);
+    else if (!strcmp(f[0], "REF")) r = gd_reference(D, f[1]) ? 0 : gd_error(D);
+    else if (!strcmp(f[0], "ENC")) r = gd_alter_encoding(D, (unsigned long)atoi(f[1]) << 24, atoi(f[2]), 0);
+    else if (!strcmp(f[0], "END")) r = gd_alter_endianness(D, atoi(f[1]) ? GD_BIG_ENDIAN : GD_LITTLE_ENDIAN, atoi(f[2]), 0);
+    else if (!strcmp(f[0], "OFF")) r = gd_alter_frameoffset64(D, strtoll(f[1], NULL, 10), atoi(f[2]), 0);
+    else if (!strcmp(f[0], "PROT")) r = gd_alter_protection(D, atoi(f[1]), atoi(f[2]));
+    else if (!strcmp(f[0], "INC") || !strcmp(f[0], "INCNS")) {
+      int par = atoi(f[0][3] ? f[3] : f[4]);
+      unsigned long fl = GD_PEDANTIC | D->fragment[par].encoding |
+        ((D->fragment[par].byte_sex & GD_BIG_ENDIAN) ? GD_BIG_ENDIAN : GD_LITTLE_ENDIAN);
+      if (f[0][3]) r = gd_include_ns(D, f[1], par, ARG(2), fl);
+      else r = gd_include_affix(D, f[1], par, ARG(2), ARG(3), fl);
+      r = (r < 0) ? r : 0;
+    } else if (!strcmp(f[0], "AFFIX")) r = gd_alter_affixes(D, atoi(f[1]), ARG(2), ARG(3));
+    else if (!strcmp(f[0], "NS")) r = gd_fragment_namespace(D, atoi(f[1]), f[2]) ? 0 : gd_error(D);
+    else r = -997;
+    if (r) { printf("IMPL ERR\nN %s failed: %d\nEND\n", f[0], r); failed = 1; }
+  }
+  fclose(fp);
+  if (!failed && D) show(D, root);
+  else if (!failed) printf("IMPL ERR\nN empty script\nEND\n");
+  if (D) gd_discard(D);
 }
 
 int main(void)
@@ -175,7 +236,7 @@ int main(void)
     if (!l) continue;
     fflush(stdout);
     pid = fork();
-    if (pid == 0) { run(line); fflush(stdout); _exit(0); }
+    if (pid == 0) { if (line[0] == '@') run_api(line + 1); else run(line); fflush(stdout); _exit(0); }
     waitpid(pid, &st, 0);
     if (!WIFEXITED(st) || WEXITSTATUS(st) != 0) { printf("IMPL CRASH\nEND\n"); }
     fflush(stdout);
